@@ -1,3 +1,154 @@
-(* C05 - KVStore operations are linearizable under concurrent use. Statements only. (stub, filled below) *)
-From Coq Require Import NArith List.
-From Verif.C05_KVConc Require Import Model.
+(* C05 - KVStore operations (mapdb, realm views, batches, flushkv) are linearizable under concurrent use.
+   Statements only; proofs in C05_KVConc/{Lin,Proofs,Locks}.v over the executable model C05_KVConc/Model.v. *)
+From Coq Require Import NArith List Bool Arith Permutation.
+From Verif.C05_KVConc Require Import Model Lin Proofs Locks.
+Import ListNotations.
+
+(* ------------------------------------------------------------------ linearizability, all schedules *)
+(* For ANY number of threads, ANY scripts of API calls (Get/Has/Set/Delete/DeletePrefix/Clear/Iterate/
+   IterateKeys/Flush/WithRealm/Batched/Close/batch Commit, through any views, plain or flushkv-wrapped) and
+   ANY schedule (interleaving of the threads' instructions, blocked entries skipped), the history of atomic
+   operations - every single operation, every individual write of a Commit, every Flush of a flushkv call,
+   each with the invocation/response stamps of its call - is linearizable w.r.t. the sequential contract
+   spec_step (Herlihy-Wing; calls still in flight are completed by their effect or dropped). *)
+Theorem C05_linearizable : forall (scripts : list (list call)) (sch : list nat),
+  linearizable (recs (run sch (init scripts))).
+Proof. exact all_schedules_linearizable. Qed.
+
+(* the same, with legality spelled out propositionally (results equal to what spec_step prescribes) *)
+Theorem C05_linearizable_legal : forall scripts sch,
+  exists l, Permutation l (recs (run sch (init scripts))) /\ legal sinit l /\ rt_ok l.
+Proof.
+  intros scripts sch. destruct (all_schedules_linearizable scripts sch) as [l [H1 [H2 H3]]].
+  exists l. split; [exact H1|]. split; [apply replay_legal; exact H2 | exact H3].
+Qed.
+
+(* Every operation has an instant of the run strictly between the invocation and the response of its call
+   at which its result was true of the store: what spec_step prescribes in the state of that instant, or -
+   only if a Close overlapped the call - the plain effect on the map of that instant. *)
+Theorem C05_effect_instant : forall scripts sch r,
+  In r (recs (run sch (init scripts))) ->
+  exists k, k <= length sch /\
+    let s1 := run (firstn k sch) (init scripts) in
+    o_inv r < clock s1 /\ (forall x, o_res r = Some x -> clock s1 < x) /\
+    (o_ret r = snd (spec_step (mkS (mem s1) (closed s1)) (o_op r)) \/
+     (closed s1 = true /\ okop (o_op r) = true /\ o_ret r = snd (eff (mem s1) (o_op r)))).
+Proof. exact effect_instant. Qed.
+
+(* Iterate / IterateKeys report a set of entries that all existed together at ONE instant between the
+   invocation and the return: exactly the selected entries (prefix, order, limit) of the map of that instant. *)
+Theorem C05_iterate_snapshot : forall scripts sch r p strip fwd keys lim l,
+  In r (recs (run sch (init scripts))) ->
+  o_op r = OIter p strip fwd keys lim -> o_ret r = RList l ->
+  exists k, k <= length sch /\
+    let s1 := run (firstn k sch) (init scripts) in
+    o_inv r < clock s1 /\ (forall x, o_res r = Some x -> clock s1 < x) /\
+    l = snapshot (mem s1) p strip fwd keys lim.
+Proof. exact iterate_snapshot. Qed.
+
+(* An operation of a call invoked after a Close had returned fails with ErrStoreClosed (or is a Close). *)
+Theorem C05_closed_after_return : forall scripts sch c x rc,
+  let h := recs (run sch (init scripts)) in
+  In c h -> o_op c = OClose -> o_res c = Some rc ->
+  In x h -> rc < o_inv x ->
+  o_ret x = RClosed \/ o_op x = OClose.
+Proof. exact closed_after_return. Qed.
+
+(* ------------------------------------------------------------------ the lock skeleton *)
+(* No reachable state is stuck: as long as some thread has not finished all its calls, some thread can take a
+   step (view lock -> map lock hierarchy, no re-entry, RWMutex with writer preference). *)
+Theorem C05_no_deadlock : forall scripts sch,
+  let s := run sch (init scripts) in
+  (exists th, In th (threads s) /\ finished th = false) -> exists t s', step s t = Some s'.
+Proof. exact no_deadlock. Qed.
+
+(* Every effect on the shared map happens while its thread holds the map lock, writes hold it exclusively. *)
+Theorem C05_effects_under_lock : forall scripts sch th o p,
+  In th (threads (run sch (init scripts))) -> cur th = Some (IEff o :: p) ->
+  exists w, hm th = Some w /\ (is_write o = true -> w = true).
+Proof. exact effects_under_lock. Qed.
+
+(* ------------------------------------------------------------------ the executable history checker *)
+(* Soundness: a history accepted by lin_check IS linearizable. Used by the correspondence on histories
+   recorded from free-running goroutines on the real code. *)
+Theorem C05_lin_check_sound : forall h, lin_check h = true -> linearizable h.
+Proof. exact lin_check_sound. Qed.
+
+(* Not expressible in this model (no memory model): "the store is free of data races". The thorough tier runs
+   the same histories under the Go race detector; C05_effects_under_lock is the model-level counterpart. *)
+
+(* ------------------------------------------------------------------ non-vacuity *)
+Definition ex_v0 := mkV 0 [] false.
+Definition ex_v1 := mkV 1 [97%N] false.
+
+(* A Set that loads `closed` before a Close and writes after it, and a Get invoked after the Close returned:
+   the write is linearized before the Close; the Get fails with ErrStoreClosed. *)
+Definition ex_scripts := [[CSet ex_v0 [97;98]%N [1]%N]; [CClose ex_v1]; [CGet ex_v1 [98]%N]].
+Definition ex_sch := [0;0; 1;1;1; 2;2;2; 0;0;0;0;0;0].
+
+Example ex_history :
+  map (fun r => (o_call r, o_inv r, o_res r, o_op r, o_ret r)) (recs (run ex_sch (init ex_scripts))) =
+  [((1, 0), 2, Some 4, OClose, ROk);
+   ((2, 0), 5, Some 7, OGet [97; 98]%N, RClosed);
+   ((0, 0), 0, Some 13, OSet [97; 98]%N [1]%N, ROk)].
+Proof. vm_compute. reflexivity. Qed.
+
+Example ex_write_after_close_applied : mem (run ex_sch (init ex_scripts)) = [([97; 98]%N, [1]%N)].
+Proof. vm_compute. reflexivity. Qed.
+
+Example ex_checker_accepts : lin_check (recs (run ex_sch (init ex_scripts))) = true.
+Proof. vm_compute. reflexivity. Qed.
+
+(* hypotheses of C05_closed_after_return are satisfiable: Close returned at 4, the Get was invoked at 5 *)
+Example ex_closed_after_return_hyps :
+  exists c x, In c (recs (run ex_sch (init ex_scripts))) /\ o_op c = OClose /\ o_res c = Some 4 /\
+              In x (recs (run ex_sch (init ex_scripts))) /\ 4 < o_inv x /\ o_ret x = RClosed.
+Proof.
+  exists (mkO (1, 0) 2 (Some 4) OClose ROk), (mkO (2, 0) 5 (Some 7) (OGet [97; 98]%N) RClosed).
+  vm_compute. repeat split; auto.
+Qed.
+
+(* two writers through different views of overlapping realms and an Iterate: the snapshot hypothesis holds,
+   one call is still in flight and a thread is unfinished (hypothesis of C05_no_deadlock) *)
+Definition it_scripts := [[CSet ex_v0 [97;98]%N [1]%N; CIter ex_v1 [] true false 9]; [CSet ex_v1 [99]%N [2]%N]].
+Definition it_sch := [0;0;0;0;0;0;0;0; 1;1;1;1; 0;0;0; 1;1;1;1; 0;0;0].
+
+Example it_history :
+  map (fun r => (o_call r, o_inv r, o_res r, o_op r, o_ret r)) (recs (run it_sch (init it_scripts))) =
+  [((0, 0), 0, Some 7, OSet [97; 98]%N [1]%N, ROk);
+   ((1, 0), 8, Some 17, OSet [97; 99]%N [2]%N, ROk);
+   ((0, 1), 12, None, OIter [97]%N 1 true false 9, RList [([98]%N, [1]%N); ([99]%N, [2]%N)])].
+Proof. vm_compute. reflexivity. Qed.
+
+Example it_unfinished : map finished (threads (run it_sch (init it_scripts))) = [false; true].
+Proof. vm_compute. reflexivity. Qed.
+
+(* the checker is not trivially true: a stale read, a torn snapshot and a success after Close are rejected *)
+Example checker_rejects_stale_read :
+  lin_check [mkO (0,0) 1 (Some 2) (OSet [97]%N [1]%N) ROk; mkO (0,1) 3 (Some 4) (OSet [97]%N [2]%N) ROk;
+             mkO (1,0) 5 (Some 6) (OGet [97]%N) (RVal [1]%N)] = false.
+Proof. vm_compute. reflexivity. Qed.
+
+Example checker_rejects_torn_snapshot :
+  lin_check [mkO (0,0) 1 (Some 2) (OSet [97]%N [1]%N) ROk; mkO (0,1) 3 (Some 4) (OSet [97]%N [2]%N) ROk;
+             mkO (0,2) 5 (Some 6) (OSet [98]%N [3]%N) ROk;
+             mkO (1,0) 1 (Some 8) (OIter [] 0 true false 9) (RList [([97]%N, [1]%N); ([98]%N, [3]%N)])] = false.
+Proof. vm_compute. reflexivity. Qed.
+
+Example checker_rejects_success_after_close :
+  lin_check [mkO (0,0) 1 (Some 2) OClose ROk; mkO (1,0) 3 (Some 4) (OSet [97]%N [1]%N) ROk] = false.
+Proof. vm_compute. reflexivity. Qed.
+
+(* ... and accepts the same write when it overlaps the Close *)
+Example checker_accepts_overlapping_close :
+  lin_check [mkO (0,0) 1 (Some 3) OClose ROk; mkO (1,0) 2 (Some 4) (OSet [97]%N [1]%N) ROk] = true.
+Proof. vm_compute. reflexivity. Qed.
+
+Print Assumptions C05_linearizable.
+Print Assumptions C05_linearizable_legal.
+Print Assumptions C05_effect_instant.
+Print Assumptions C05_iterate_snapshot.
+Print Assumptions C05_closed_after_return.
+Print Assumptions C05_no_deadlock.
+Print Assumptions C05_effects_under_lock.
+Print Assumptions C05_lin_check_sound.
